@@ -8,7 +8,8 @@ def engines : List (String × (List String → String)) := [
   ("path", Wpull.Path.handle),
   ("robots", Wpull.Robots.handle),
   ("decomp", Wpull.Decomp.handle),
-  ("table", Wpull.Table.handle)
+  ("table", Wpull.Table.handle),
+  ("pool", Wpull.Pool.handle)
 ]
 
 def handle (line : String) : String :=
